@@ -37,13 +37,11 @@ def run(ctx):
     binary = ctx.go_build("c18")
     args = ["-plans", pdir, "-out", ctx.path("calls.ndjson"), "-seed", ctx.seed,
             "-enum", ctx.q(3, 4), "-enumfull", ctx.q(2, 3), "-rand", ctx.q(400, 6000),
-            "-maxlen", ctx.q(12, 24), "-long", ctx.q(14, 42), "-longlen", ctx.q(300, 2000),
+            "-maxlen", ctx.q(12, 24), "-long", ctx.q(14, 42), "-longlen", ctx.q(300, 1000),
             "-rounds", ctx.q(60, 1500)]
-    if os.environ.get("VERIF_C18_DBERR"):
-        # handles that already carry an error: the unchanged tree begins a transaction for them and
-        # returns the old error without finishing it (open finding reported to the coordinator);
-        # off by default so that the check is quiet on the unchanged tree
-        args.append("-dberr")
+    # handles that already carry an error: before fix b8f299d Transact began a transaction for them and
+    # returned the old error without finishing it (known_findings.json, fixed); exercised always
+    args.append("-dberr")
     out = ctx.harness(binary, args)
     # 4. validate what the real code did
     calls = ctx.load_traces(ctx.path("calls.ndjson"))
@@ -74,8 +72,8 @@ def run(ctx):
         "and `inmut` (the argument list is unchanged); a call that does not come back within 10 s is a "
         "`hang` event, a statement nobody planned is an `exec` of step 0 - both rejected by the spec",
         "half of the calls on sharable handle states reuse one pool / gorm.DB across calls",
-        "handles that already carry an error are exercised only with VERIF_C18_DBERR=1 (open finding: "
-        "Transact begins a transaction and returns the old error without finishing it)",
+        "handles that already carry an error are a handle state like the others (Transact must not begin "
+        "for them: defect repaired by b8f299d)",
         "the returned error is attributed to step i when it is (or wraps) the very value closure i "
         "returned; otherwise it is classified by errors.As/Is against the step / driver sentinels; 'describes "
         "the panic' = the error text contains the panic value's text",
@@ -92,7 +90,7 @@ def run(ctx):
              "prepared statements by config / by session, SkipDefaultTransaction, dry run, pool of one "
              "connection; already a transaction, closed pool) x no steps passed in three ways / every "
              "one-step list, every kind of refusal (8) for begin / commit / rollback, nil functions as steps, "
-             "steps that call Transact again on the handle they got, 14 (42) lists of up to 300 (2000) steps, "
+             "steps that call Transact again on the handle they got, 14 (42) lists of up to 300 (1000) steps, "
              "60 (1500) rounds of 2..6 calls released together on one fresh pool (each one trace) "
              "+ seeded random lists up to 12 (24) steps; a failing step returns one of 13 kinds of error "
              "(own, driver statement error, wrapped, gorm.ErrRecordNotFound plain/wrapped, MySQL 1062 / "
